@@ -87,6 +87,14 @@ MALFORMED = [
 ]
 
 
+#: characters with a meaning to str.format, %-formatting, regular expressions, shells, logging and JSON: a rejected input
+#: is echoed into messages and logs, so these are the ones a message builder can trip over
+META = "{}%\\'\"$*?+^|<>#@~&=!/:`\x00\x7f\U0001f600\ud7ff"
+MALFORMED_META = ["Muss {1}", "Muss [1] }", "{", "}", "{}", "{0}", "{0.__class__}", "%s", "%(x)s", "%", "Muss [1] %d", "[1] U [2] }", "X [1] U [2] {foo}",
+                  "\\", "[1]\\", "Muss \\d", "'", '"', "$1", "[1]*", "[1]+", "[1]?", "^[1]$", "[1]|[2]", "[1]&&[2]", "Muss [1] # x", "`", "\x00", "Muss\x00[1]",
+                  "[1]{2}", "[{1}]", "[%1]", "[1%]", "Muss [1]{", "Soll [1] {}", "Kann [1] %", "M [1] {0}", "{requirement_indicators}", "{characters}"]
+
+
 def mutate(rng, s):
     if not s:
         return rng.choice("[]()UOX1P. ")
@@ -102,5 +110,5 @@ def mutate(rng, s):
 
 
 def garbage(rng, n):
-    alpha = "[]()UOXuox∧∨⊻0123456789P.B \t\nMSKabc-_,;ſK٣１"
+    alpha = "[]()UOXuox∧∨⊻0123456789P.B \t\nMSKabc-_,;ſK٣１" + META
     return "".join(rng.choice(alpha) for _ in range(n))
